@@ -68,6 +68,8 @@ def cmdDec (args : List String) : String :=
   | [msg, v, lim, hex] =>
     match messages.lookup msg, v.toNat?, optNat lim, fromHex hex with
     | some d, some v, some lim, some bs =>
+      -- below FeatureSettingsSerializedAsStrings the Query decoder refuses the packet
+      if msg == "Query" && v < 54429 then "err invalid" else
       match decodeD lim none d v bs with
       | .ok (m, r) => "ok " ++ showRec m ++ " " ++ toString r.length
       | .err e => "err " ++ errStr e
